@@ -146,6 +146,10 @@ fn choose_transfer_encoding(
             // getting list of requested elements
             let mut parse = util::parse_header_value(value.as_str()); // TODO: remove conversion
 
+            // a weight that is not a number cannot be ordered: such elements are ignored
+            // (sorting with them is not a total order, which `sort_by` may answer with a panic)
+            parse.retain(|elem| !elem.1.is_nan());
+
             // sorting elements by most priority
             parse.sort_by(|a, b| b.1.partial_cmp(&a.1).unwrap_or(Ordering::Equal));
 
